@@ -174,10 +174,32 @@ fn link_of(s: &str) -> Option<Link> {
     } else { load_pd(s).map(|p| to_link(&p)) }
 }
 
+/// seconds one ykh invocation may take; an overrun is inconclusive (wall-clock is never a verdict)
+const YKH_TIMEOUT_S: u64 = 120;
+
 fn run_ykh(args: &[String]) -> Result<(i32, String, String), String> {
+    use std::io::Read;
+    use std::process::Stdio;
     let bin = std::env::var("VERIF_YKH").map_err(|_| "VERIF_YKH not set")?;
-    let out = Command::new(bin).args(args).env("RUST_BACKTRACE", "0").env_remove("RUST_LOG").output().map_err(|e| format!("cannot run ykh: {e}"))?;
-    Ok((out.status.code().unwrap_or(-1), String::from_utf8_lossy(&out.stdout).to_string(), String::from_utf8_lossy(&out.stderr).to_string()))
+    let mut child = Command::new(bin).args(args).env("RUST_BACKTRACE", "0").env_remove("RUST_LOG")
+        .stdin(Stdio::null()).stdout(Stdio::piped()).stderr(Stdio::piped()).spawn().map_err(|e| format!("cannot run ykh: {e}"))?;
+    let (mut so, mut se) = (child.stdout.take().ok_or("no stdout")?, child.stderr.take().ok_or("no stderr")?);
+    let t1 = std::thread::spawn(move || { let mut b = vec![]; let _ = so.read_to_end(&mut b); b });
+    let t2 = std::thread::spawn(move || { let mut b = vec![]; let _ = se.read_to_end(&mut b); b });
+    let t0 = std::time::Instant::now();
+    let status = crate::ctx::external(|| loop {
+        match child.try_wait() {
+            Ok(Some(st)) => break Ok(st),
+            Ok(None) => {
+                if t0.elapsed().as_secs() >= YKH_TIMEOUT_S { let _ = child.kill(); let _ = child.wait(); break Err("timeout: ykh did not finish".to_string()) }
+                std::thread::sleep(std::time::Duration::from_millis(if t0.elapsed().as_millis() < 200 { 1 } else { 10 }));
+            }
+            Err(e) => break Err(format!("cannot wait for ykh: {e}")),
+        }
+    });
+    let (o, e) = (t1.join().unwrap_or_default(), t2.join().unwrap_or_default());
+    let st = status?;
+    Ok((st.code().unwrap_or(-1), String::from_utf8_lossy(&o).to_string(), String::from_utf8_lossy(&e).to_string()))
 }
 
 fn case(ctx: &mut Ctx, rng: &mut Rng, exhaustive_idx: Option<usize>) {
@@ -213,7 +235,7 @@ fn case(ctx: &mut Ctx, rng: &mut Rng, exhaustive_idx: Option<usize>) {
         if reduced && link == "[]" { supported = false }
     }
 
-    let (rc, stdout, stderr) = match run_ykh(&args) { Ok(x) => x, Err(e) => { ctx.inconclusive("cannot_run_ykh"); ctx.note(e); return } };
+    let (rc, stdout, stderr) = match run_ykh(&args) { Ok(x) => x, Err(e) => { ctx.inconclusive(if e.starts_with("timeout") { "ykh_timeout" } else { "cannot_run_ykh" }); ctx.note(format!("{e}: {:?}", args)); return } };
     let wit = |extra: serde_json::Value| json!({"config": conf, "exit": rc, "stdout": stdout.chars().take(1500).collect::<String>(), "stderr": stderr.chars().take(600).collect::<String>(), "detail": extra});
     let looks_like_table = stdout.lines().any(|l| { let t = l.trim_start(); t.starts_with("j\\i") || t.starts_with("i ") });
 
